@@ -260,7 +260,7 @@ def created_facts(A: AdjEnv, S, ct, Tcls, C, ment, u, Lw):
             Schema("created-links-are-new", (Ref, Ref), f3, pair_from=("_links@", "_vertices@", "_universes@"))]
 
 
-@contract("adjlist.load_adj_dict", "adjdict:adj, linktype:cls<=TwoEndedLink=UnDirectedEdge", props=("C11", "C20"), shards=8)
+@contract("adjlist.load_adj_dict", "adjdict:adj, linktype:cls<=TwoEndedLink=UnDirectedEdge", props=("C11", "C20"), shards=8, oracle_op=True)
 def _(c):
     S, ct, a, Tcls = c.S, c.ct, c.adjdict, c.linktype
     A = AdjEnv(a)
@@ -372,12 +372,28 @@ def _(L):
 
 
 @contract("adjmatrix.load_adj_matrix", "matrix:any, vertices:any, linktype:cls<=TwoEndedLink=DirectedEdge", props=("C11",),
-          trusted=True, no_body=True)
+          trusted=True, no_body=True, oracle_op=True)
 def _(c):
     """NOT VERIFIED (nested lists of arbitrary truthy cells and integer indexing of the side array are outside the symbolic
     subset as it stands): nobody calls this function, the contract only registers it so that the bounded stand-in of C11
     (explorer operation `adj_matrix`: random square / malformed matrices over the vertex pool, compared with the statement of
     C11 through the public API, including `ValueError` before anything is touched) runs on every check."""
+    o = c.outcome(exc="*", label="unspecified")
+    o.result(VOpaque("universe"))
+    for f_ in ("_links", "_vertices", "_universes", "_uid", "_laws", "_applies_to", "memo_has", "memo_val", "stats_has", "dyn_has", "dyn_val",
+               "init_count", "init_args", "_mixed_links", "_cycles", "_multipath", "_multiverse", "_edge_whitelist"):
+        o.loose(f_, lambda new, old, *_: [])
+
+
+@contract("randgraph.randgraph", "count:int=15, edge:cls<=TwoEndedLink=DirectedEdge, connectivity:any=None, ensurelink:bool=True", props=("C20",),
+          trusted=True, no_body=True, oracle_op=True)
+def _(c):
+    """NOT VERIFIED (float arithmetic for the sample sizes, the `random` module, a comprehension that allocates): nobody calls
+    this function, the contract only registers it so that the bounded stand-in of C20 (explorer operation `randgraph`:
+    counts 1..7, four edge types, default / 0 / 0.2 / 0.5 / 1 connectivity, both ensurelink values, 10^6 seeds; vertex count and
+    `i` attributes, link types, ends inside the universe, first-end guarantee, reproducibility under re-seeding) runs on every
+    check.  What IS verified for C20 is the materialisation step: load_adj_dict's contract (C11) - every created link has the
+    requested class and both its ends are mentioned vertices, i.e. members of the returned universe."""
     o = c.outcome(exc="*", label="unspecified")
     o.result(VOpaque("universe"))
     for f_ in ("_links", "_vertices", "_universes", "_uid", "_laws", "_applies_to", "memo_has", "memo_val", "stats_has", "dyn_has", "dyn_val",
